@@ -18,11 +18,12 @@ RULE_TEXT = ("2-4 tasks issue 3-6 operations in total against one run's state: s
              "SqliteStateStore object shared; one SqliteStateStore object per task on the same run id (how the server hands "
              "stores to step invocations: _ServerInternalRunAdapter.get_state_store creates one per adapter). The final state "
              "must equal the result of some serial order of the operations that respects real-time precedence (all <=720 orders "
-             "tried). Non-trivial: >=2 edit_state blocks overlapped in time; distinct = abstract trace shape.")
+             "tried). A quarter of the runs use a typed child state (ChildSt(BaseSt)) on the in-memory / SQLite store with parent-type "
+             "set_state merges, field sets, replaces and clears racing edit_state blocks that modify a parent or a child field. Non-trivial: >=2 edit_state blocks overlapped in time; distinct = abstract trace shape.")
 COMPONENTS = {"real": ["InMemoryStateStore, SqliteStateStore (stdlib sqlite3, file DB), SqliteWorkflowStore.create_state_store"],
               "stub": [], "sim": ["loop, clock, sequential state model"]}
 ASSUMPTIONS = ["each edit_state block counts as one atomic operation (statement)", "sqlite3 calls are synchronous; interleaving happens only at awaits"]
-EXPECTED_PROBES = ["overlapping-edit-blocks", "per-task-store-objects", "shared-sqlite-store", "memory-store"]
+EXPECTED_PROBES = ["typed-child-state", "parent-merge-during-edit-block", "overlapping-edit-blocks", "per-task-store-objects", "shared-sqlite-store", "memory-store"]
 LEVEL_TEXT = "Seeded exploration of operation timings; linearizability-style search of the final state against a sequential model."
 LEVEL_NOTE = "Trusted: simulator loop, sequential model (set/replace/clear/increment on a dict)."
 
@@ -43,7 +44,122 @@ def apply(state, op):
     return s
 
 
+def apply_typed(state, op):
+    k = op[0]
+    s = dict(state)
+    if k == "set":
+        s[op[1]] = op[2]
+    elif k == "replace":
+        s = dict(op[1])
+    elif k == "clear":
+        s = {"a": 0, "extra": "x"}
+    elif k == "inc":
+        s["a"] = s["a"] + 1
+    elif k == "app":
+        s["extra"] = s["extra"] + "e"
+    elif k == "merge":
+        s["a"] = op[1]          # parent fields overwrite, the child's own field is kept
+    return s
+
+
+def _run_typed(tape):
+    """typed child state (ChildSt(BaseSt)) with parent-type set_state merges racing edit_state blocks"""
+    arrangement = tape.choice(["mem-typed", "sqlite-typed"], "arrangement.t")
+    ntasks = tape.rng_int(2, 3, "ntasks")
+    nops = tape.rng_int(3, 5, "nops")
+    grid = [0, 0, 1, 2]
+    plan = []
+    for i in range(nops):
+        kind = tape.choice(["inc", "app", "app", "merge", "merge", "set", "replace", "clear"], "op.kind")
+        if kind in ("inc", "app"):
+            op = (kind, tape.choice(grid, "op.inner"))
+        elif kind == "merge":
+            op = ("merge", 20 + i)
+        elif kind == "set":
+            key = tape.choice(["a", "extra"], "op.key")
+            op = ("set", key, 10 + i if key == "a" else f"s{i}")
+        elif kind == "replace":
+            op = ("replace", {"a": 100 + i, "extra": f"r{i}"})
+        else:
+            op = ("clear",)
+        plan.append({"task": tape.draw(ntasks, "op.task"), "delay": tape.choice(grid, "op.delay"), "op": op, "id": i})
+    td = TmpDir()
+
+    async def scenario(world):
+        from llama_agents.server._store.sqlite.sqlite_workflow_store import SqliteWorkflowStore
+        from workflows.context.state_store import InMemoryStateStore
+        from worlds.stores import BaseSt, ChildSt
+        world.probe("typed-child-state")
+        if arrangement == "mem-typed":
+            st = InMemoryStateStore(ChildSt())
+        else:
+            st = SqliteWorkflowStore(td.db()).create_state_store("run1", state_type=ChildSt)
+            await st.set_state(ChildSt())
+        spans = {}
+        open_edit = [0]
+
+        async def do(p):
+            op = p["op"]
+            spans[p["id"]] = [world.trace.log("op-start", id=p["id"], task=p["task"], op=op[0]), None]
+            if op[0] in ("inc", "app"):
+                async with st.edit_state() as s_:
+                    open_edit[0] += 1
+                    v = s_.a if op[0] == "inc" else s_.extra
+                    await asyncio.sleep(op[1] or 0)
+                    if op[0] == "inc":
+                        s_.a = v + 1
+                    else:
+                        s_.extra = v + "e"
+                    open_edit[0] -= 1
+            elif op[0] == "set":
+                await st.set(op[1], op[2])
+            elif op[0] == "merge":
+                if open_edit[0]:
+                    world.probe("parent-merge-during-edit-block")
+                await st.set_state(BaseSt(a=op[1]))
+            elif op[0] == "replace":
+                await st.set_state(ChildSt(**op[1]))
+            else:
+                await st.clear()
+            spans[p["id"]][1] = world.trace.log("op-end", id=p["id"], task=p["task"], op=op[0])
+
+        async def task(t):
+            for p in [p for p in plan if p["task"] == t]:
+                if p["delay"]:
+                    await asyncio.sleep(p["delay"])
+                await do(p)
+        await asyncio.gather(*[task(t) for t in range(ntasks)])
+        final = await st.get_state()
+        fin = {"a": final.a, "extra": final.extra}
+        world.trace.log("final", state=fin)
+        ids = [p["id"] for p in plan]
+        ops = {p["id"]: p["op"] for p in plan}
+        pred = {a: {b for b in ids if spans[b][1] < spans[a][0]} for a in ids}
+        ok = False
+        for order in itertools.permutations(ids):
+            pos = {x: i for i, x in enumerate(order)}
+            if any(pos[b] > pos[a] for a in ids for b in pred[a]):
+                continue
+            s = {"a": 0, "extra": "x"}
+            for x in order:
+                s = apply_typed(s, ops[x])
+            if s == fin:
+                ok = True
+                break
+        if not ok:
+            world.violate("C20.not-serializable", f"final state {fin} equals no serial order of {[ops[i] for i in ids]} ({arrangement})",
+                          arrangement=arrangement, parent_merge_during_edit=bool(world.probes.get("parent-merge-during-edit-block")))
+        return fin
+    try:
+        return simulate_simple(tape, CFG, scenario, None, nontrivial=lambda w, o: bool(w.probes.get("parent-merge-during-edit-block")),
+                               sample=lambda w, o: {"arrangement": arrangement, "plan": plan, "final": o})
+    finally:
+        td.close()
+
+
 def run(tape):
+    if tape.draw(4, "typed?") == 0:
+        return _run_typed(tape)
     arrangement = tape.choice(["mem", "sqlite-shared", "sqlite-per-task", "sqlite-per-task"], "arrangement")
     ntasks = tape.rng_int(2, 4, "ntasks")
     nops = tape.rng_int(3, 6, "nops")
